@@ -18,6 +18,8 @@ import tempfile
 from common import *
 
 _REAL_SCANDIR = os.scandir
+# a memory file system when there is one (directory operations on the default one are slow here)
+_TMPROOT = '/dev/shm' if os.path.isdir('/dev/shm') and os.access('/dev/shm', os.W_OK) else None
 _OPENED = None          # list the audit hook appends to while a directory is being loaded
 _HOOKED = False
 
@@ -89,10 +91,10 @@ def run_ffdir(chk, ask, Gen, inject, FAULTS, dump_ff, load_ff, repr_j, pending):
     _hook()
     global _OPENED
     rng = chk.rng('ffdir')
-    base = tempfile.mkdtemp(prefix='c13dir_')
+    base = tempfile.mkdtemp(prefix='c13dir_', dir=_TMPROOT)
     cases = []
     try:
-        n = 2500 if chk.thorough else 260
+        n = 2500 if chk.thorough else 180
         for i in range(n):
             d = os.path.join(base, 'case%d' % i)
             os.mkdir(d)
@@ -202,19 +204,20 @@ def run_ffdir(chk, ask, Gen, inject, FAULTS, dump_ff, load_ff, repr_j, pending):
                 if not must_fail:
                     order = [x for x in opened if x in alone]
                     got = dump_ff(ff)
-                    want_links = [l for x in order for l in dump_ff(alone[x])[1]]
+                    adump = {x: dump_ff(alone[x]) for x in order}
+                    want_links = [l for x in order for l in adump[x][1]]
                     if got[1] != want_links:
                         errs.append('links are not the concatenation of the links of %r in reading order' % order)
                     for idx, what in ((0, 'blocks'), (2, 'modifications')):
                         want = {}
                         for x in order:
-                            for row in dump_ff(alone[x])[idx]:
+                            for row in adump[x][idx]:
                                 want[row[0]] = row
                         if [r[0] for r in got[idx]] != list(want):
                             errs.append('%s %r, declared in reading order %r' % (what, [r[0] for r in got[idx]], list(want)))
                         elif got[idx] != list(want.values()):
                             errs.append('a %s entry is not the last declaration of its name in reading order' % what[:-1])
-                        if sum(len(dump_ff(alone[x])[idx]) for x in order) > len(want):
+                        if sum(len(adump[x][idx]) for x in order) > len(want):
                             chk.count('ffdir_%s_redeclared_in_later_file' % what)
                     wantv = {}
                     for x in order:
@@ -233,7 +236,7 @@ def run_ffdir(chk, ask, Gen, inject, FAULTS, dump_ff, load_ff, repr_j, pending):
 
         # ---- the result depends on the enumeration order (no sort in iter_force_field_files) ----
         dep = 0
-        for ci, (d, arg, given, files, policy, fault) in enumerate(cases[:120]):
+        for ci, (d, arg, given, files, policy, fault) in enumerate(cases[:(400 if chk.thorough else 30)]):
             if d is None or fault:
                 continue
             res = []
@@ -331,7 +334,7 @@ def run_mapdir(chk, ask, backmap_library):
     ffs = c13_mapping.toy_ffs()
     blib = backmap_library(ffs)
     mlib = c13_mapping.library(ffs)
-    base = tempfile.mkdtemp(prefix='c13map_')
+    base = tempfile.mkdtemp(prefix='c13map_', dir=_TMPROOT)
     MAPN = ['a.map', 'b.map', '.c.map', 'zz.map', 'x.y.map']
     MPGN = ['n.mapping', 'o.mapping', '.p.mapping']
     OTHER = ['A.MAP', 'z.backmap', 'notes.txt', 'map', 'q.map~', 'r.mappings']
